@@ -20,7 +20,7 @@ pub fn check() -> Check {
         replay,
         floor_quick: 100_000,
         floor_thorough: 1_000_000,
-        rule: "G1: every line of length <= 8 (quick) / 9 (thorough) over {a, space, quote, backslash, dash, e-acute} tokenised by Tokens::new and compared with a reference grammar written from the property; \
+        rule: "G1: every line of length <= 10 (quick) / 11 (thorough) over {a, space, quote, backslash, dash, e-acute} tokenised by Tokens::new and compared with a reference grammar written from the property; \
                G2: random lines up to 200 chars over 1-4-byte characters; G3: round trip - random lists of 0-6 arbitrary NUL-free strings rendered fully or minimally quoted, with or without blanks after closing quotes, must tokenise back to exactly the list; \
                G4: the same lists typed through a whole Cli and read back by the handler. \
                Non-trivial = the line contains an empty quoted token, an escape, or a quote adjacent to another token; distinct by line content.",
@@ -182,7 +182,7 @@ fn check_roundtrip_cli(list: &[String], line: &str) -> Verdict {
 fn run_shard(ctx: &ShardCtx) {
     // G1
     let syms: [&str; 6] = ["a", " ", "\"", "\\", "-", "é"];
-    let depth = ctx.tier.pick(8u32, 9u32);
+    let depth = ctx.tier.pick(10u32, 11u32);
     let mut idx = 0u64;
     'outer: for len in 0..=depth {
         let total = 6u64.pow(len);
@@ -201,7 +201,7 @@ fn run_shard(ctx: &ShardCtx) {
             match compare_line(&line) {
                 Ok(true) => {
                     if nontrivial(&line) {
-                        ctx.nontrivial(fingerprint(&line), || json!({"line": line}));
+                        ctx.nontrivial_enum(|| json!({"line": line}));
                     }
                 }
                 Ok(false) => ctx.skipped(),
@@ -223,7 +223,7 @@ fn run_shard(ctx: &ShardCtx) {
         1 => any::<char>().prop_filter("no NUL", |c| *c != '\0'),
     ];
     let strat = proptest::collection::vec(ch, 0..200).prop_map(|v| v.into_iter().collect::<String>());
-    ctx.run_prop("tokens-random", ctx.tier.pick(200_000, 3_000_000), strat, |l| json!({"line": l}), |line| {
+    ctx.run_prop("tokens-random", ctx.tier.pick(1_000_000, 10_000_000), strat, |l| json!({"line": l}), |line| {
         let r = check_line("tokens-random", line);
         if r.is_ok() {
             if ref_tokens(line).is_none() {
@@ -239,7 +239,7 @@ fn run_shard(ctx: &ShardCtx) {
     // G3
     ctx.run_prop(
         "roundtrip",
-        ctx.tier.pick(200_000, 3_000_000),
+        ctx.tier.pick(1_000_000, 10_000_000),
         rendering_strategy(false),
         |r| json!({"list": r.list, "line": r.render()}),
         |r| {
@@ -258,7 +258,7 @@ fn run_shard(ctx: &ShardCtx) {
     // G4
     ctx.run_prop(
         "roundtrip-cli",
-        ctx.tier.pick(30_000, 500_000),
+        ctx.tier.pick(200_000, 2_000_000),
         rendering_strategy(true),
         |r| json!({"list": r.list, "line": r.render()}),
         |r| {
